@@ -1118,16 +1118,6 @@ theorem ack_eff {cfg : Cfg} {me : ChainId} {c c' : Chain} {p : Packet} {code : N
   subst h1
   have hesc1 := feePay_bal c.evm.bal (c.evm.fee p.dst p.seq).1 (c.evm.fee p.dst p.seq).2 hle
   split at h
-  · -- OnAcknowledgePacket reverts and is tolerated: error acknowledgement of a packet without transfer data
-    rename_i htol
-    have hc' := (Option.some.inj h).symm
-    subst hc'
-    refine ⟨Decidable.of_not_not hsrc, ⟨Decidable.of_not_not hmem, rfl, rfl, rfl, rfl, ?_, ?_, rfl, ?_, rfl, rfl, ?_⟩⟩
-    · intro T D; simp [credit, fwdAmt, htol.2]
-    · intro V D; simp [credit, backAmt, htol.2]
-    · simp [htol.1]; rfl
-    · intro F; exact hesc1 F
-  split at h
   · cases h
   rename_i e2 hr
   split at h
@@ -2607,9 +2597,6 @@ theorem ack_settles_by_code (cfg : Cfg) (me : ChainId) (c c' : Chain) (p : Packe
     have h1 := debit_some hdeb
     subst h1
     split at h
-    · have := (Option.some.inj h).symm; subst this
-      simp [credit, upd2]
-    split at h
     · cases h
     rename_i e2 hr
     split at h
@@ -2655,16 +2642,32 @@ theorem ack_step_uses_destination_code (w : World) (s d : ChainId) (q : Nat) :
   rename_i c' ha
   exact Or.inr ⟨p, code, c', hf, hcode, ha, rfl⟩
 
-/-- with the repair of `msg_server.Acknowledgement`, the error acknowledgement of a packet WITHOUT transfer data is
-always processed once the fee is in escrow (before it, `OnAcknowledgePacket` reverted and the packet could never
-be acknowledged) -/
-theorem ack_call_only_error_accepted (cfg : Cfg) (me : ChainId) (c : Chain) (p : Packet) (code : Nat)
-    (hs : p.src = me) (hm : p ∈ c.commits) (hc : cfg.clients p.dst = true) (hcode : code ≠ 0) (ht : p.transfer = none)
-    (hfee : (c.evm.fee p.dst p.seq).2 ≤ c.evm.bal (c.evm.fee p.dst p.seq).1 acPacket) :
-    (ackHandler cfg me c p code).isSome := by
-  unfold ackHandler debit
-  have : ¬ c.evm.bal (c.evm.fee p.dst p.seq).1 acPacket < (c.evm.fee p.dst p.seq).2 := by omega
-  simp [hs, hm, hc, hcode, ht, this]
+/-- **Observation outside C03, modelled as it is**: the error acknowledgement of a packet WITHOUT transfer data is
+rejected by the source every time (`OnAcknowledgePacket` reverts — the endpoint decodes the empty transfer data — and
+with it the whole `MsgAcknowledgement`): nothing changes, … -/
+theorem ack_call_only_error_rejected (cfg : Cfg) (me : ChainId) (c : Chain) (p : Packet) (code : Nat)
+    (hcode : code ≠ 0) (ht : p.transfer = none) : ackHandler cfg me c p code = none := by
+  unfold ackHandler refund
+  simp only [ht, hcode, ↓reduceIte]
+  split
+  · rfl
+  split
+  · rfl
+  split
+  · rfl
+  split <;> rfl
+
+/-- … so the relayer step leaves the whole world unchanged: commitment, fee escrow, fee-paid counter and status stay
+as they are, the packet stays `Pending` (conservation and fee solvency are not affected — the fee of a packet that
+is never acknowledged stays in escrow). -/
+theorem ack_call_only_error_rejected_unchanged (w : World) (s d : ChainId) (q : Nat) (p : Packet) (code : Nat)
+    (hf : findPacket (w.chains s).commits d q = some p) (hack : (w.chains d).acks s q = some code)
+    (hcode : code ≠ 0) (ht : p.transfer = none) :
+    step true w (.ack s d q) = w ∧ Pending w s d q := by
+  obtain ⟨hm, hd, hq⟩ := findPacket_some hf
+  refine ⟨?_, ⟨p, hm, hd, hq⟩⟩
+  simp only [step, hf, hack, ack_call_only_error_rejected (w.cfg s) s (w.chains s) p code hcode ht]
+
 
 
 /-! ### non-vacuity of the fee / completeness theorems -/
@@ -2684,16 +2687,17 @@ theorem feeSolvent_w0 : FeeSolvent w0 := by
   unfold escrowFee w0
   by_cases hS : S = 0 <;> simp [hS, Chain.empty]
 
-/-- a call-only packet whose call data fails: error acknowledgement, acknowledged on the source, fee paid once -/
+/-- a call-only packet whose call data fails: error acknowledgement on the destination; the source rejects the
+acknowledgement, the packet stays committed with its fee in escrow and unpaid -/
 def callOnlySteps : List Step :=
   [.send 0 0 { dst := 1, token := 1, amount := 0, receiver := 0, call := .plain .fail, feeToken := 1, feeAmount := 9, callback := false },
    .recv 0 1 1, .ack 0 1 1]
 
-example : ((run true w0 callOnlySteps).chains 0).commits = [] ∧
-    ((run true w0 callOnlySteps).chains 0).evm.feePaid 1 1 = 1 ∧
-    ((run true w0 callOnlySteps).chains 0).evm.bal 1 acRelayer = 9 ∧
-    ((run true w0 callOnlySteps).chains 0).evm.bal 1 acPacket = 0 ∧
-    ((run true w0 callOnlySteps).chains 0).evm.ackStatus 1 1 = 2 ∧
+example : ((run true w0 callOnlySteps).chains 0).commits.length = 1 ∧
+    ((run true w0 callOnlySteps).chains 0).evm.feePaid 1 1 = 0 ∧
+    ((run true w0 callOnlySteps).chains 0).evm.bal 1 acRelayer = 0 ∧
+    ((run true w0 callOnlySteps).chains 0).evm.bal 1 acPacket = 9 ∧
+    ((run true w0 callOnlySteps).chains 0).evm.ackStatus 1 1 = 0 ∧
     ((run true w0 callOnlySteps).chains 1).acks 0 1 = some 3 := by decide
 
 example : FeeSolvent (run true w0 (f13Steps ++ callOnlySteps)) :=
